@@ -352,6 +352,81 @@ func main() {
 		})
 	}
 
+	// deadlines: every call that arms a read or write deadline with `time.Now().Add(D)` stands under a condition `D != 0`
+	// (a zero PauseTimeout disables the protection: arming with it would expire at once). Reported: the functions that arm,
+	// and those of them with an arming call outside such a condition.
+	{
+		var arming, unguarded []string
+		var names []string
+		for n := range funcs {
+			names = append(names, n)
+		}
+		sort.Strings(names)
+		for _, name := range names {
+			fd := funcs[name]
+			if fd.Body == nil {
+				continue
+			}
+			var conds []string
+			armed, bad := false, false
+			var walk func(n ast.Node)
+			walk = func(n ast.Node) {
+				if n == nil {
+					return
+				}
+				if is, ok := n.(*ast.IfStmt); ok {
+					if is.Init != nil {
+						walk(is.Init)
+					}
+					conds = append(conds, exprString(fset, is.Cond))
+					walk(is.Body)
+					conds = conds[:len(conds)-1]
+					if is.Else != nil {
+						walk(is.Else)
+					}
+					return
+				}
+				if c, ok := n.(*ast.CallExpr); ok {
+					fn := exprString(fset, c.Fun)
+					if (strings.HasSuffix(fn, ".SetReadDeadline") || strings.HasSuffix(fn, ".SetWriteDeadline") || strings.HasSuffix(fn, ".SetDeadline")) && len(c.Args) == 1 {
+						a := exprString(fset, c.Args[0])
+						if strings.HasPrefix(a, "time.Now().Add(") {
+							d := strings.TrimSuffix(strings.TrimPrefix(a, "time.Now().Add("), ")")
+							armed = true
+							ok := false
+							for _, cd := range conds {
+								for _, cj := range strings.Split(cd, " && ") {
+									if cj == d+" != 0" {
+										ok = true
+									}
+								}
+							}
+							if !ok {
+								bad = true
+							}
+						}
+					}
+				}
+				ast.Inspect(n, func(m ast.Node) bool {
+					if m == n || m == nil {
+						return true
+					}
+					walk(m)
+					return false
+				})
+			}
+			walk(fd.Body)
+			if armed {
+				arming = append(arming, name)
+			}
+			if bad {
+				unguarded = append(unguarded, name)
+			}
+		}
+		f.Tables["deadlineArming"] = arming
+		f.Tables["deadlineArmingUnguarded"] = unguarded
+	}
+
 	// Client.Backoff: the table behind its nil result (case err == nil || nonNilIsAny(err, TABLE))
 	syn("Backoff.nilTable", "Client.Backoff", func(n ast.Node) (string, bool) {
 		if cc, ok := n.(*ast.CaseClause); ok {
